@@ -47,6 +47,7 @@ struct SeedView
     int aux1 = 0, aux2 = 0;                 // format specific (pnm: type, maxval)
     bool subrects = true;                   // enumerate every sub-rectangle
     bool big = false;                       // sample file: run each entry point once, no canvases
+    bool sparse_subrects = false;           // larger images: every single pixel, every whole row, every whole column (instead of every rectangle)
     bool scan_expected = true;              // the format provides a scanline reader for this variant
     bool partial_expected = true;           // the format supports partial reads of this variant
     bool spec_only = false;                 // only the tie to the encoder (the reader leaves the image unwritten: nothing to compare)
@@ -105,6 +106,15 @@ inline std::vector<Rect> all_rects(long w, long h)
     std::vector<Rect> r;
     for (long y0 = 0; y0 < h; ++y0) for (long x0 = 0; x0 < w; ++x0)
         for (long dy = 1; y0 + dy <= h; ++dy) for (long dx = 1; x0 + dx <= w; ++dx) r.push_back({x0, y0, dx, dy});
+    return r;
+}
+inline std::vector<Rect> sparse_rects(long w, long h)
+{
+    std::vector<Rect> r;
+    for (long y0 = 0; y0 < h; ++y0) for (long x0 = 0; x0 < w; ++x0) r.push_back({x0, y0, 1, 1});
+    for (long y0 = 0; y0 < h; ++y0) r.push_back({0, y0, w, 1});
+    for (long x0 = 0; x0 < w; ++x0) r.push_back({x0, 0, 1, h});
+    r.push_back({w / 2, h / 2, w - w / 2, h - h / 2});
     return r;
 }
 inline std::string rect_id(Rect const& r) { return std::string(vh::S() << r.x0 << "," << r.y0 << "+" << r.dx << "x" << r.dy); }
@@ -222,9 +232,9 @@ void check_seed(Emit& e, SeedView const& s, Opts const& o)
         }
 
         // ---- every sub-rectangle
-        if (s.subrects)
+        if (s.subrects || s.sparse_subrects)
         {
-            for (Rect const& r : all_rects(W, H))
+            for (Rect const& r : (s.subrects ? all_rects(W, H) : sparse_rects(W, H)))
             {
                 // samples the file leaves undefined (RLE delta skips; expected == -1) hold whatever the reader's buffers held:
                 // a sub-rectangle is compared with the crop of the full read only where every sample is defined by the file
